@@ -204,11 +204,13 @@ theorem addV_LS (a b : E) (ha : LS a = true) (hb : LS b = true) : addV a b = .ok
   cases a <;> cases b <;> first | rfl | (simp only [LS] at ha; exact absurd ha Bool.false_ne_true) | (simp only [LS] at hb; exact absurd hb Bool.false_ne_true)
 
 theorem addV_LS_mat (a : E) (ha : LS a = true) (r c : Nat) (es : List E) :
-    addV a (mat r c es) = .error .typeError := by
+    addV a (mat r c es) = if r == 1 && c == 1 then
+      .ok (mat 1 1 (([a].zip es).map (fun p => add [p.1, p.2]))) else .error .typeError := by
   cases a <;> first | rfl | (simp only [LS] at ha; exact absurd ha Bool.false_ne_true)
 
 theorem addV_mat_LS (b : E) (hb : LS b = true) (r c : Nat) (es : List E) :
-    addV (mat r c es) b = .error .typeError := by
+    addV (mat r c es) b = if r == 1 && c == 1 then
+      .ok (mat 1 1 ((es.zip [b]).map (fun p => add [p.1, p.2]))) else .error .typeError := by
   cases b <;> first | rfl | (simp only [LS] at hb; exact absurd hb Bool.false_ne_true)
 
 theorem mulV_LS (a b : E) (ha : LS a = true) (hb : LS b = true) : mulV a b = .ok (mul [a, b]) := by
@@ -270,10 +272,27 @@ theorem LSList_map_mul (es : List E) (h : LSList es = true) (f : E → E)
   obtain ⟨e, he, rfl⟩ := List.mem_map.mp hx
   exact hf e (LSList_mem h he)
 
-/-- the sum of two lowered values of one type is a lowered value of that type, component-wise -/
+/-- a matrix-shaped and a scalar-shaped lowered value of one type: only in dimension 1, where the
+    matrix is 1×1 -/
+theorem mixed_1d (d : Nat) (τ : Ty) (es : List E) (hτ : τ ≠ .s) (hb : τ = .s ∨ d = 1)
+    (hl : es.length = d * cols d τ) : d = 1 ∧ cols d τ = 1 ∧ ∃ e0, es = [e0] := by
+  have hd : d = 1 := hb.resolve_left hτ
+  subst hd
+  have hc : cols 1 τ = 1 := by cases τ <;> simp_all [cols]
+  rw [hc] at hl
+  refine ⟨rfl, hc, ?_⟩
+  cases es with
+  | nil => simp at hl
+  | cons x xs =>
+    cases xs with
+    | nil => exact ⟨x, rfl⟩
+    | cons _ _ => simp at hl
+
+/-- the sum of two lowered values of one type is a lowered value of that type, component-wise
+    (in dimension 1 a scalar form and a 1×1 matrix add up to a 1×1 matrix) -/
 theorem addV_sound (S : DRing K) (d : Nat) (τ : Ty) (a b t : E)
     (ha : hasShape d τ a = true) (hb : hasShape d τ b = true) (h : addV a b = .ok t) :
-    hasShape d τ t = true ∧ ∀ i j, den S t i j = den S a i j + den S b i j := by
+    hasShape d τ t = true ∧ ∀ i j, InR d τ i j → den S t i j = den S a i j + den S b i j := by
   by_cases hma : ∃ r c es, a = mat r c es
   · obtain ⟨r, c, es, rfl⟩ := hma
     obtain ⟨hr, hc, hl, hs, hτ⟩ := hasShape_mat d τ r c es ha
@@ -285,23 +304,45 @@ theorem addV_sound (S : DRing K) (d : Nat) (τ : Ty) (a b t : E)
       simp only [addV, beq_self_eq_true, Bool.and_self, if_true] at h
       injection h with h; subst h
       refine ⟨hasShape_mk_mat d τ _ hτ (LSList_zip_add es es' hs hs') (by simp [hl, hl']), ?_⟩
-      intro i j
+      intro i j _
       simp only [den]
       split
       · exact denNth_zip_add S es es' (by rw [hl, hl']) _
       · simp
     · have hb' := hasShape_nonmat d τ b hb (by
         intro r c es he; exact hmb ⟨r, c, es, he⟩)
-      rw [addV_mat_LS b hb'.1] at h; cases h
+      obtain ⟨hd, hc, e0, rfl⟩ := mixed_1d d τ es hτ hb'.2 hl
+      subst hd
+      rw [hc] at h ⊢
+      rw [addV_mat_LS b hb'.1] at h
+      simp only [beq_self_eq_true, Bool.and_self, if_true] at h
+      injection h with h; subst h
+      have he0 : LS e0 = true := LSList_mem hs (by simp)
+      refine ⟨?_, fun i j hij => ?_⟩
+      · cases τ <;> simp_all [hasShape, LS, LSList]
+      · obtain ⟨rfl, rfl⟩ := (InR_one τ i j).mp hij
+        simp [den, denNth, denSum]
   · have ha' := hasShape_nonmat d τ a ha (by intro r c es he; exact hma ⟨r, c, es, he⟩)
     by_cases hmb : ∃ r c es, b = mat r c es
     · obtain ⟨r', c', es', rfl⟩ := hmb
-      rw [addV_LS_mat a ha'.1] at h; cases h
+      obtain ⟨hr, hc, hl, hs, hτ⟩ := hasShape_mat d τ r' c' es' hb
+      subst r' c'
+      obtain ⟨hd, hc, e0, rfl⟩ := mixed_1d d τ es' hτ ha'.2 hl
+      subst hd
+      rw [hc] at h ⊢
+      rw [addV_LS_mat a ha'.1] at h
+      simp only [beq_self_eq_true, Bool.and_self, if_true] at h
+      injection h with h; subst h
+      have he0 : LS e0 = true := LSList_mem hs (by simp)
+      refine ⟨?_, fun i j hij => ?_⟩
+      · cases τ <;> simp_all [hasShape, LS, LSList]
+      · obtain ⟨rfl, rfl⟩ := (InR_one τ i j).mp hij
+        simp [den, denNth, denSum]
     · have hb' := hasShape_nonmat d τ b hb (by intro r c es he; exact hmb ⟨r, c, es, he⟩)
       rw [addV_LS a b ha'.1 hb'.1] at h
       injection h with h; subst h
       refine ⟨hasShape_mk_LS d τ _ (by simp [LS, LSList, ha'.1, hb'.1]) ha'.2, ?_⟩
-      intro i j; simp [den, denSum]
+      intro i j _; simp [den, denSum]
 
 /-- types of products: at most one factor is not a scalar -/
 def tmul : Ty → Ty → Option Ty
@@ -372,15 +413,16 @@ theorem mulV_sound (S : DRing K) (d : Nat) (τa τb τ : Ty) (a b t : E)
       refine ⟨hasShape_mk_LS d τ _ (by simp [LS, LSList, ha'.1, hb'.1]) hτ, ?_⟩
       intro i j; simp [den, denProd]
 
-theorem foldAdd_sound (S : DRing K) (d : Nat) (τ : Ty) (ts : List E) (acc t : E)
+theorem foldAdd_soundR (S : DRing K) (d : Nat) (τ : Ty) (ts : List E) (acc t : E)
     (hacc : hasShape d τ acc = true) (hts : ∀ x ∈ ts, hasShape d τ x = true)
     (h : ts.foldlM addV acc = .ok t) :
-    hasShape d τ t = true ∧ ∀ i j, den S t i j = den S acc i j + denSum S ts i j := by
+    hasShape d τ t = true ∧
+      ∀ i j, InR d τ i j → den S t i j = den S acc i j + denSum S ts i j := by
   induction ts generalizing acc with
   | nil =>
     simp only [List.foldlM_nil, pure, Except.pure] at h
     injection h with h; subst h
-    exact ⟨hacc, fun i j => by simp [denSum]⟩
+    exact ⟨hacc, fun i j _ => by simp [denSum]⟩
   | cons x ts ih =>
     simp only [List.foldlM_cons, bind, Except.bind] at h
     cases h1 : addV acc x with
@@ -389,8 +431,22 @@ theorem foldAdd_sound (S : DRing K) (d : Nat) (τ : Ty) (ts : List E) (acc t : E
       rw [h1] at h
       have hx := addV_sound S d τ acc x acc' hacc (hts x (by simp)) h1
       have := ih acc' hx.1 (fun y hy => hts y (by simp [hy])) h
-      refine ⟨this.1, fun i j => ?_⟩
-      rw [this.2 i j, hx.2 i j]; simp only [denSum]; ring
+      refine ⟨this.1, fun i j hij => ?_⟩
+      rw [this.2 i j hij, hx.2 i j hij]; simp only [denSum]; ring
+
+/-- the sum of scalar forms, at every pair of indices (statement kept for Lemmas/NormLower.lean; the
+    general, in-range statement is `foldAdd_soundR`) -/
+theorem foldAdd_sound (S : DRing K) (d : Nat) (τ : Ty) (ts : List E) (acc t : E)
+    (hacc : hasShape d τ acc = true) (hts : ∀ x ∈ ts, hasShape d τ x = true)
+    (h : ts.foldlM addV acc = .ok t) (hτ : τ = .s := by rfl) :
+    hasShape d τ t = true ∧ ∀ i j, den S t i j = den S acc i j + denSum S ts i j := by
+  subst hτ
+  have := foldAdd_soundR S d .s ts acc t hacc hts h
+  refine ⟨this.1, fun i j => ?_⟩
+  rw [den_LS_free S t (hasShape_s_LS d t this.1) i j, this.2 0 0 ⟨rfl, rfl⟩,
+    den_LS_free S acc (hasShape_s_LS d acc hacc) i j]
+  congr 1
+  exact (denSum_congr S ts i j 0 0 (fun x hx => den_LS_free S x (hasShape_s_LS d x (hts x hx)) i j)).symm
 
 /-- the type of a product, accumulated from the left -/
 def tmulList : Ty → List Ty → Option Ty
@@ -426,28 +482,33 @@ theorem foldMul_sound (S : DRing K) (d : Nat) (ts : List E) (τs : List Ty) (acc
 
 /-! ### sums and products never fail on values of matching shapes -/
 
-/-- outside dimension 1 two lowered values of one type have the same form, and their sum exists -/
-theorem addV_total (d : Nat) (hd : d ≠ 1) (τ : Ty) (a b : E)
+/-- the sum of two lowered values of one type exists (in dimension 1 also when one is a scalar form
+    and the other a 1×1 matrix: the repaired `Add` branch) -/
+theorem addV_total (d : Nat) (τ : Ty) (a b : E)
     (ha : hasShape d τ a = true) (hb : hasShape d τ b = true) : ∃ t, addV a b = .ok t := by
   by_cases hma : ∃ r c es, a = mat r c es
   · obtain ⟨r, c, es, rfl⟩ := hma
-    obtain ⟨hr, hc, _, _, hτ⟩ := hasShape_mat d τ r c es ha
+    obtain ⟨hr, hc, hl, _, hτ⟩ := hasShape_mat d τ r c es ha
     by_cases hmb : ∃ r c es, b = mat r c es
     · obtain ⟨r', c', es', rfl⟩ := hmb
       obtain ⟨hr', hc', _, _, _⟩ := hasShape_mat d τ r' c' es' hb
       subst r c r' c'
       simp [addV]
     · have hb' := hasShape_nonmat d τ b hb (by intro r c es he; exact hmb ⟨r, c, es, he⟩)
-      rcases hb'.2 with h1 | h1
-      · exact absurd h1 hτ
-      · exact absurd h1 hd
+      subst r c
+      obtain ⟨hd, hc, _⟩ := mixed_1d d τ es hτ hb'.2 hl
+      subst hd
+      rw [hc, addV_mat_LS b hb'.1]
+      simp
   · have ha' := hasShape_nonmat d τ a ha (by intro r c es he; exact hma ⟨r, c, es, he⟩)
     by_cases hmb : ∃ r c es, b = mat r c es
     · obtain ⟨r', c', es', rfl⟩ := hmb
-      obtain ⟨_, _, _, _, hτ⟩ := hasShape_mat d τ r' c' es' hb
-      rcases ha'.2 with h1 | h1
-      · exact absurd h1 hτ
-      · exact absurd h1 hd
+      obtain ⟨hr, hc, hl, _, hτ⟩ := hasShape_mat d τ r' c' es' hb
+      subst r' c'
+      obtain ⟨hd, hc, _⟩ := mixed_1d d τ es' hτ ha'.2 hl
+      subst hd
+      rw [hc, addV_LS_mat a ha'.1]
+      simp
     · have hb' := hasShape_nonmat d τ b hb (by intro r c es he; exact hmb ⟨r, c, es, he⟩)
       exact ⟨_, addV_LS a b ha'.1 hb'.1⟩
 
@@ -472,16 +533,22 @@ theorem mulV_total (d : Nat) (τa τb τ : Ty) (a b : E)
     · have hb' := hasShape_nonmat d τb b hb (by intro r c es he; exact hmb ⟨r, c, es, he⟩)
       exact ⟨_, mulV_LS a b ha'.1 hb'.1⟩
 
-theorem foldAdd_total (S : DRing K) (d : Nat) (hd : d ≠ 1) (τ : Ty) (ts : List E) (acc : E)
+theorem foldAdd_total_all (S : DRing K) (d : Nat) (τ : Ty) (ts : List E) (acc : E)
     (hacc : hasShape d τ acc = true) (hts : ∀ x ∈ ts, hasShape d τ x = true) :
     ∃ t, ts.foldlM addV acc = .ok t := by
   induction ts generalizing acc with
   | nil => exact ⟨acc, rfl⟩
   | cons x ts ih =>
-    obtain ⟨acc', h1⟩ := addV_total d hd τ acc x hacc (hts x (by simp))
+    obtain ⟨acc', h1⟩ := addV_total d τ acc x hacc (hts x (by simp))
     have hx := addV_sound S d τ acc x acc' hacc (hts x (by simp)) h1
     obtain ⟨t, ht⟩ := ih acc' hx.1 (fun y hy => hts y (by simp [hy]))
     exact ⟨t, by simp only [List.foldlM_cons, bind, Except.bind, h1, ht]⟩
+
+/-- (statement kept for Lemmas/NormLower.lean; `foldAdd_total_all` needs no hypothesis on `d`) -/
+theorem foldAdd_total (S : DRing K) (d : Nat) (_hd : d ≠ 1) (τ : Ty) (ts : List E) (acc : E)
+    (hacc : hasShape d τ acc = true) (hts : ∀ x ∈ ts, hasShape d τ x = true) :
+    ∃ t, ts.foldlM addV acc = .ok t :=
+  foldAdd_total_all S d τ ts acc hacc hts
 
 theorem foldMul_total (S : DRing K) (d : Nat) (ts : List E) (τs : List Ty) (acc : E) (τacc τ : Ty)
     (hacc : hasShape d τacc acc = true)
